@@ -16,6 +16,7 @@ import (
 	"fmt"
 	"io"
 
+	dragonboat "github.com/lni/dragonboat/v4"
 	"github.com/lni/dragonboat/v4/config"
 	"github.com/lni/dragonboat/v4/raftio"
 	pb "github.com/lni/dragonboat/v4/raftpb"
@@ -253,6 +254,95 @@ func probeRun(ps probeStore, batches [][]upd, torn []upd) (evs []event, err erro
 	return evs, nil
 }
 
+// restartProbe: save the batches through the real store, cut the power, reopen the store and
+// start the replica THROUGH THE REAL node.startRaft (node.replayLog + raft.Launch, as
+// NodeHost.startShard does for a restarting or joining replica). What the launched raft peer
+// holds (term, vote, commit, log range and terms, snapshot) is recorded as the image read
+// back: it must be the acknowledged state.
+func restartProbe(ps probeStore, batches [][]upd, k key) (evs []event, err error) {
+	fs := gvfs.NewStrictMem()
+	var db raftio.ILogDB
+	if p := vh.Catch(func() { db, err = openStore(ps, fs) }); p != "" || err != nil {
+		return nil, fmt.Errorf("open %s: %v %s", ps.name, err, p)
+	}
+	for i, us := range batches {
+		var pus []pb.Update
+		for _, u := range us {
+			pu := toPBUpdate(u)
+			for j := range pu.EntriesToSave {
+				pu.EntriesToSave[j].Cmd = []byte{byte(pu.EntriesToSave[j].Index)}
+			}
+			pu.Messages = nil
+			if pu.Snapshot.Index != 0 {
+				pu.Snapshot.ShardID = u.shard
+				pu.Snapshot.Filepath = "/probe-snapshots/none"
+				pu.Snapshot.Membership = pb.Membership{ConfigChangeId: 1, Addresses: map[uint64]string{1: "a1", 2: "a2", 3: "a3"}}
+			}
+			pus = append(pus, pu)
+		}
+		var serr error
+		if p := vh.Catch(func() { serr = db.SaveRaftState(pus, pus[0].ShardID%2+1) }); p != "" || serr != nil {
+			return nil, fmt.Errorf("SaveRaftState %s: %v %s", ps.name, serr, p)
+		}
+		for _, u := range us {
+			evs = append(evs, event{kind: 'P', k: key{u.shard, u.replica}, worker: 1, batch: uint64(i + 1), u: u})
+		}
+		for _, u := range us {
+			for _, m := range u.msgs {
+				evs = append(evs, event{kind: 'Q', k: key{u.shard, u.replica}, worker: 1, m: m})
+			}
+		}
+	}
+	powerCut(fs, db)
+	evs = append(evs, event{kind: 'X'})
+	if p := vh.Catch(func() { db, err = openStore(ps, fs) }); p != "" || err != nil {
+		evs = append(evs, event{kind: 'F', k: k, index: 0})
+		return evs, nil
+	}
+	defer func() { _ = vh.Catch(func() { _ = db.Close() }) }()
+	cfg := config.Config{ShardID: k.shard, ReplicaID: k.replica, ElectionRTT: 10, HeartbeatRTT: 1}
+	var img image
+	var rerr error
+	if p := vh.Catch(func() {
+		st, ss, _, e := dragonboat.VerifC04Restart(cfg, db, fs, map[uint64]string{}, false)
+		if e != nil {
+			rerr = e
+			return
+		}
+		img = image{term: st.Term, vote: st.Vote, commit: st.Commit, snapIndex: ss.Index, snapTerm: ss.Term}
+		for i, t := range st.Terms {
+			img.log = append(img.log, ent{st.FirstIndex + uint64(i), t})
+		}
+	}); p != "" || rerr != nil {
+		evs = append(evs, event{kind: 'F', k: k, index: 0})
+		return evs, nil
+	}
+	evs = append(evs, event{kind: 'C', k: k, rec: img})
+	return evs, nil
+}
+
+func snap(u upd, index, term uint64) upd { u.snapIndex, u.snapTerm = index, term; return u }
+
+type restartShape struct {
+	name    string
+	batches [][]upd
+}
+
+func restartShapes() []restartShape {
+	e := upd{shard: 1, replica: 1, fast: true}
+	return []restartShape{
+		// a joining replica with an empty log that granted a vote before its first Replicate
+		{"state-only", [][]upd{{withMsg(st(1, 1, 5, 2, 0), grant(1, 2, 5))}}},
+		{"state-only-twice", [][]upd{{withMsg(st(1, 1, 5, 2, 0), grant(1, 2, 5))}, {st(1, 1, 6, 0, 0)}, {withMsg(st(1, 1, 6, 3, 0), grant(1, 3, 6))}}},
+		{"state-entries", [][]upd{{withMsg(withEnts(st(1, 1, 4, 1, 2), 1, 4, 4, 4), ack(1, 2, 4, 3))}, {withMsg(st(1, 1, 5, 2, 2), grant(1, 2, 5))}}},
+		{"entries-then-state", [][]upd{{withEnts(st(1, 1, 4, 0, 0), 1, 4, 4)}, {withMsg(withEnts(e, 3, 4), ack(1, 2, 4, 3))}, {st(1, 1, 4, 0, 3)}}},
+		{"snapshot-state", [][]upd{{snap(st(1, 1, 4, 1, 10), 10, 3)}, {withMsg(st(1, 1, 5, 2, 10), grant(1, 2, 5))}}},
+		{"snapshot-state-entries", [][]upd{{snap(st(1, 1, 4, 1, 10), 10, 3)}, {withMsg(withEnts(st(1, 1, 4, 1, 10), 11, 4, 4), ack(1, 2, 4, 12))}}},
+		{"snapshot-only", [][]upd{{snap(e, 10, 3)}}},
+		{"nothing", nil},
+	}
+}
+
 func sortedKeySet(m map[key]bool) []key {
 	r := map[key]*repState{}
 	for k := range m {
@@ -399,6 +489,20 @@ func genProbeCases(r *vh.Rand, w *vh.LineWriter, tier string, peerTraces [][]eve
 		emitRun(ps, acked, []upd{withEnts(st(2, 3, 4, 1, 5), 6, 4, 4, 4)}, "torn-entries")
 		emitRun(ps, [][]upd{{base(1), base(17)}, {mk("vote", 1), mk("entries", 17)}}, []upd{mk("term", 1), withEnts(st(17, 1, 4, 0, 2), 6, 4, 4)}, "torn-pair")
 		emitRun(ps, [][]upd{{st(1, 1, 5, 0, 3)}, {withMsg(st(1, 1, 5, 2, 3), grant(1, 2, 5))}}, []upd{st(1, 1, 6, 0, 3)}, "torn-vote")
+	}
+	// restart through the real node.replayLog / raft.Launch
+	for _, sh := range restartShapes() {
+		for _, ps := range probeStores {
+			evs, err := restartProbe(ps, sh.batches, key{1, 1})
+			if err != nil {
+				notes["probe_errors"]++
+				fmt.Fprintf(stderrW, "c04: restart probe %s %s: %v\n", ps.name, sh.name, err)
+				continue
+			}
+			w.Printf("R%d live probe=restart-%s store=%s | %s\n", n, sh.name, ps.name, eventsStr(evs))
+			n++
+			notes["restarts_"+ps.name]++
+		}
 	}
 	maxPeer := 40
 	if tier == "thorough" {
